@@ -70,7 +70,11 @@ func NewSymbolTable(opts ...SymbolTableOption) *SymbolTableStruct {
 }
 
 // Check if a given symbol exists.
+// This function is thread-safe.
 func (s *SymbolTableStruct) ExistsId(symbol Symbol) bool {
+	s.mutex.RLock()
+	defer s.mutex.RUnlock()
+
 	return symbol < Symbol(len(s.idTable)) && symbol > 0
 }
 
